@@ -3,6 +3,7 @@ import random, os, subprocess
 import engine as E
 from props import updgen as U
 from props.c12 import run_k0
+from props import zckdlgen as ZG
 
 PROP = 'C11'
 MODULES = ['ZckModel.Props.C11', 'ZckModel.Props.C04Sound', 'ZckModel.Props.C04Req']
@@ -44,6 +45,8 @@ def gen_cases(tier, seed, ctx):
             if n < 2: break
             kl = ','.join('%d:%s' % (rnd.randrange(1, n + 1), rnd.choice('0ha')) for _ in range(rnd.choice([2, 3, 5])))
             cases.append(E.Case('k%d' % len(cases), W.op(A, Bb, tb, lim, fr, kl), dict(kind='%s/%s/repeated' % (tag.split('/')[0], tname), writes=n)))
+    # the real zckdl binary killed (LD_PRELOAD: _exit inside the k-th write(2) on the target) and run again to completion
+    cases += ZG.cases(ctx, tier, seed, kill=True, n=24 if tier == 'quick' else 300)
     return cases
 
 def nontrivial(r):
